@@ -33,6 +33,17 @@ func addReinitParticipant(w *World, old int) (int, error) {
 	if err := a.Open(true); err != nil {
 		return idx, err
 	}
+	if w.SetSeedTwice {
+		// the operator repeats the restore step (set_seed = SetBaseSeed + GenerateKeys)
+		// on the machine that already runs on that seed
+		if err := a.M.SetBaseSeed(a.Mnemonic); err != nil {
+			return idx, err
+		}
+		if err := a.M.GenerateKeys(); err != nil {
+			return idx, err
+		}
+		w.Stats.Fault("mnemonic-entered-twice")
+	}
 	return idx, w.StartNode(nd)
 }
 
@@ -42,7 +53,7 @@ func addReinitParticipant(w *World, old int) (int, error) {
 // variants of genuine messages of a signing batch (these parts belong to the
 // C09 and C10 checks: verification must be back on after a reinit).
 func runC20(w *World, tier string, advMode string) (bool, interface{}) {
-	prop := map[string]string{"": "C20", "c09": "C09", "c10": "C10", "c04": "C04", "c14": "C14", "c02": "C02", "c15": "C15"}[advMode]
+	prop := map[string]string{"": "C20", "c09": "C09", "c10": "C10", "c04": "C04", "c14": "C14", "c02": "C02", "c15": "C15", "c01": "C01"}[advMode]
 	n, t := pickNT(w, tier)
 	if n > 4 && tier != "thorough" {
 		n = 4
@@ -166,6 +177,7 @@ func runC20(w *World, tier string, advMode string) (bool, interface{}) {
 	c2 := &Cer{W: w, L: NewLoop(w), N: n}
 	c2.L.Faults = c.L.Faults
 	c2.Tr = NewTracker(w)
+	w.SetSeedTwice = w.Tape.Bool(1, 3, "setSeedTwice")
 	newIdx := make([]int, n)
 	newKeys := map[string][]byte{}
 	for i := 0; i < n; i++ {
@@ -194,6 +206,13 @@ func runC20(w *World, tier string, advMode string) (bool, interface{}) {
 		}
 	}
 	_ = adapted
+	if advMode == "c01" {
+		// the threshold written in the reinit file's header is not the round's (a hand-made
+		// or edited file; the header only feeds the hash the operators compare): whatever is
+		// signed after the reinitialisation still has to verify under the original key
+		reDKG.Threshold = []int{max(1, t-1), 1, 0, t + 1, n + 3}[w.Tape.Choose(5, "headerThreshold")]
+		w.Stats.Fault("reinit-file-header-threshold-edited")
+	}
 	reBz, _ := json.Marshal(reDKG)
 	if advMode == "" {
 		checkReinitHash(w, reBz)
@@ -420,6 +439,8 @@ func runC20(w *World, tier string, advMode string) (bool, interface{}) {
 				judged++
 				if err := VerifyETH(origKey, em.Payload, e.Signature); err != nil && advMode == "" {
 					w.Fail("C20", "signature-after-reinit-invalid-under-original-key", fmt.Sprintf("node %s: %v", w.Nodes[idx].Name, err))
+				} else if err != nil && advMode == "c01" {
+					w.Fail("C01", "invalid-signature/after-reinit", fmt.Sprintf("node %s stores, after a reinitialisation from a file whose header names threshold %d (the round's is %d), a signature that does not verify under the group key: %v", w.Nodes[idx].Name, reDKG.Threshold, t, err))
 				}
 			}
 		}
@@ -509,6 +530,7 @@ func init() {
 	Register(&Scenario{Prop: "C09", Name: "C09-reinit", Run: func(w *World, tier string) (bool, interface{}) { return runC20(w, tier, "c09") }})
 	Register(&Scenario{Prop: "C10", Name: "C10-reinit", Run: func(w *World, tier string) (bool, interface{}) { return runC20(w, tier, "c10") }})
 	Register(&Scenario{Prop: "C14", Name: "C14-reinit", Run: func(w *World, tier string) (bool, interface{}) { return runC20(w, tier, "c14") }})
+	Register(&Scenario{Prop: "C01", Name: "C01-reinit", Run: func(w *World, tier string) (bool, interface{}) { return runC20(w, tier, "c01") }})
 	Register(&Scenario{Prop: "C15", Name: "C15-reinit", Run: func(w *World, tier string) (bool, interface{}) { return runC20(w, tier, "c15") }})
 	Register(&Scenario{Prop: "C02", Name: "C02-reinit", Run: func(w *World, tier string) (bool, interface{}) { return runC20(w, tier, "c02") }})
 	Register(&Scenario{Prop: "C04", Name: "C04-reinit", Run: func(w *World, tier string) (bool, interface{}) { return runC20(w, tier, "c04") }})
